@@ -29,6 +29,7 @@ class TOp:
     smooth: bool = True           # differentiable on the generated domain (no ties / kinks)
     tol64: float = 1e-12          # forward tolerance (relative to result scale) for float64 operands
     scales: tuple = (1.0,)        # operand magnitudes the op is exercised at (value grid times one of these)
+    fd_hscale: Optional[Callable] = None   # args -> finite-difference step scale (default: the case's magnitude)
     torch: Optional[Callable] = None
 
 
@@ -911,6 +912,7 @@ def full_case(draw, op, need_grad=True):
     c = draw(op.gen())
     c["op"] = op.name
     c["dtype"] = draw(gen.DTYPES)
+    c["args"]["_dtype"] = c["dtype"]          # lets dtype-dependent generators (batch-norm offsets) stay consistent
     n = len(c["xs"])
     rg = [draw(st.booleans()) for _ in range(n)]
     if need_grad and not any(rg):
